@@ -1931,7 +1931,7 @@ def scen_C16(ctx):
                 'the largest file (so that each of the three files and each chunk is in turn the first refused write), flush/sync_all/sync_data is '
                 'called, the limit is lifted, everything is read back (memory view must equal the ideal map), a second flush must succeed and the '
                 'files must then equal the model image byte for byte; an Ok under the limit must mean the snapshot is complete (checked with a snap '
-                'right after); an error when every file fits below the limit is flagged; `table first`: small key and value files with a 2048/8192-bucket table and a limit between them, so that the table file - the last one written - is the first refused write of flush, sync_all and sync_data each; distinct = distinct (history, threshold) pairs')
+                'right after); an error when every file fits below the limit is flagged; `table first`: small key and value files with a 2048/8192-bucket table and a limit between them, so that the table file - the last one written - is the first refused write of flush, sync_all and sync_data each; `db level`: FileDb::sync_all/sync_data over three maps of which one (visited neither first nor last) is refused: the error must be reported, the map stay dirty, and the call succeed after the limit is lifted; distinct = distinct (history, threshold) pairs')
     ladder = [0, 1, 100, 128, 129, 192, 193, 200, 256, 400, 1000, 2000, 4095, 4096, 4097, 5000, 8192, 8193, 12288, 16384, 20000, 40000, 100000,
               131071, 131072, 131073, 200000, 262144, 300000, 1 << 20, 1 << 24]
 
@@ -1978,6 +1978,36 @@ def scen_C16(ctx):
     for h in range(nh):
         for L in (ladder if not ctx.quick else ladder[h % 2::2]):
             cases.append((len(cases), h, L))
+    # `db level`: FileDb::sync_all / sync_data walk every open map; one map whose value file lies beyond the limit and has unwritten
+    # updates there (the refused one), other maps that sync fine, visited before AND after it: the call must report the error,
+    # the refused map must stay dirty, and after the limit is lifted the same call must make everything durable
+    def dblevel(j):
+        sy = ['dbsyncdata', 'dbsyncall'][j % 2]
+        types = [('bytes', 'string', 'u64'), ('string', 'bytes', 'vu64'), ('i64', 'bytes', 'vu64'), ('bytes', 'bytes', 'bytes')][(j // 2) % 4]
+        big_kt, s1_kt, s2_kt = types
+        g = G.G(ctx.seed, 'C16db', j)
+        kb = g.key_universe(big_kt, 24)
+        k1 = g.key_universe(s1_kt, 3)
+        k2 = g.key_universe(s2_kt, 3)
+        # names chosen so that within one registry the refused map is neither first nor last
+        lines = ['db d0 db', 'map mb d0 %s m_big B64,VS1048576,KP1000,HP1000' % big_kt, 'map m1 d0 %s a_small B8' % s1_kt, 'map m2 d0 %s z_small B8' % s2_kt]
+        lines += ['put mb %s z1000x%d' % (G.hx(k), n) for n, k in enumerate(kb)] + ['put m1 %s 01' % G.hx(k) for k in k1] + ['put m2 %s 02' % G.hx(k) for k in k2]
+        lines += ['%s d0' % sy]
+        lines += ['put mb %s z1000x%d' % (G.hx(k), n + 100) for n, k in enumerate(kb)] + ['put m1 %s 0303' % G.hx(k1[0]), 'put m2 %s 0404' % G.hx(k2[0])]
+        at = len(lines)
+        lines += ['limit 8192', '%s d0' % sy, 'dirty mb', 'unlimit'] + ['get mb %s' % G.hx(k) for k in kb[:6]] + ['get m1 %s' % G.hx(k1[0]), 'get m2 %s' % G.hx(k2[0])]
+        lines += ['%s d0' % sy, 'snap db', 'cpdir db c1', 'closeall', 'snap db', 'db dc c1', 'map mc dc %s m_big default' % big_kt] + ['get mc %s' % G.hx(k) for k in kb] + ['len mc', 'closeall']
+        r = pair(ctx, 'db_level', j, lines)
+        il = r.get('impl_lines') or []
+        if r.get('ok') and len(il) == len(lines):
+            if not il[at + 1].startswith('err'):
+                ctx.violation('db_level_report_%d' % j, '%s under a file-size limit of 8192 bytes returned `%s` although the value file of map m_big (24 values of 1000 bytes, all '
+                              'rewritten since the last sync) lies beyond the limit; is_dirty(m_big) = %s' % (sy, il[at + 1], il[at + 2]), lines[:at + 3])
+            elif il[at + 2] != 'true':
+                ctx.violation('db_level_flag_%d' % j, '%s failed (`%s`) but map m_big reports is_dirty() = %s' % (sy, il[at + 1], il[at + 2]), lines[:at + 3])
+            elif il[at + 4 + 8] != 'ok':
+                ctx.violation('db_level_recovery_%d' % j, 'after the limit was lifted %s still returns `%s`' % (sy, il[at + 12]), lines)
+    parallel(dblevel, range(ctx.scale(8, 32)))
     for sy in ('flush', 'syncall', 'syncdata'):
         for n, Ls in ((2048, (6000, 12288, 16700)), (8192, (8192, 40000, 66600))):
             for L in (Ls if not ctx.quick else Ls[1:]):
